@@ -26,16 +26,18 @@ theorem C17_never_idle_partial (cfg : Cfg) (evs : List Ev) (h : noNonKafkaEscape
 
 /-- The excluded situation is real: a non-Kafka failure of the coordinator look-up leaves the
     member idle for ever — the full-strength statement is false of the code. -/
+def exCfg : Cfg := { initialBackoffMs := 1000, retryBackoffMs := 125, fatalBackoffMs := 10000, heartbeatMs := 5000 }
+
 theorem C17_never_idle_counterexample : ¬ Open.C17_never_idle := by
   intro h
-  have := h Cfg.default [.start, .coordDone (.err .nonKafka)]
+  have := h exCfg [.start, .coordDone (.err .nonKafka)]
   revert this
   decide +kernel
 
 /-- … and that error is not surfaced on `start`'s Deferred either. -/
 theorem C17_fatal_surfaces_counterexample : ¬ Open.C17_fatal_surfaces := by
   intro h
-  have := (h Cfg.default [.start, .coordDone (.err .nonKafka)]).2
+  have := (h exCfg [.start, .coordDone (.err .nonKafka)]).2
   revert this
   decide +kernel
 
@@ -71,7 +73,7 @@ def exFaults : List Ev :=
   [.start, .coordDone (.err .coordinatorNotAvailable), .advance 1, .fire 0, .coordDone .ok, .metaDone (.err .kafkaUnavailable),
    .advance 10, .fire 1, .coordDone .ok, .metaDone .ok, .joinDone (.err .unknownMemberId)]
 example : noNonKafkaEscape exFaults = true := by decide
-example : ((final Cfg.default exFaults).timers.map fun t => (t.id, t.kind)) = [(2, .rejoin)] := by decide +kernel
+example : ((final exCfg exFaults).timers.map fun t => (t.id, t.kind)) = [(2, .rejoin)] := by decide +kernel
 
 end Afkak.Props.C17
 
